@@ -79,9 +79,10 @@ func init() {
 		Build2: func(lw *leafWrapper) sdf.SDF2 { return must2(sdf.Mesh2D(catLMesh())) }})
 	register(catEntry{Name: "mesh2d-slow", Ctors: []string{"sdf.Mesh2DSlow"},
 		Build2: func(lw *leafWrapper) sdf.SDF2 { return must2(sdf.Mesh2DSlow(catLMesh())) }})
-	register(catEntry{Name: "bezier2d", Ctors: []string{"sdf.Mesh2D"}, Shared: true,
+	register(catEntry{Name: "bezier2d", Ctors: []string{"sdf.Polygon2D", "sdf.Mesh2D"}, Shared: true,
 		Build2: func(lw *leafWrapper) sdf.SDF2 { return bezierProfile() }})
-	register(catEntry{Name: "text2d", Ctors: []string{"sdf.Text2D"}, Shared: true, Heavy: true,
+	// Short text: one Evaluate measures ~4us, so not Heavy. Shared: glyphs are built with NewBezier.
+	register(catEntry{Name: "text2d", Ctors: []string{"sdf.Text2D"}, Shared: true,
 		Build2: func(lw *leafWrapper) sdf.SDF2 {
 			f, err := sdf.LoadFont(filepath.Join(repoDir(), "files", "cmr10.ttf"))
 			if err != nil {
@@ -99,9 +100,12 @@ func init() {
 		Build2: func(lw *leafWrapper) sdf.SDF2 { return must2(sdf.ThreeArcCam2D(30, 20, 5, 200)) }})
 	register(catEntry{Name: "make-three-arc-cam", Ctors: []string{"sdf.MakeThreeArcCam", "sdf.ThreeArcCam2D"},
 		Build2: func(lw *leafWrapper) sdf.SDF2 { return must2(sdf.MakeThreeArcCam(0.1, sdf.DtoR(2.0*80), 0.7, 1.1)) }})
-	register(catEntry{Name: "cubic-spline2d", Ctors: []string{"sdf.CubicSpline2D"},
+	// Heavy: Evaluate prints a debug line to stdout per Newton-Raphson iteration (sdf/spline.go).
+	register(catEntry{Name: "cubic-spline2d", Ctors: []string{"sdf.CubicSpline2D"}, Heavy: true,
 		Build2: func(lw *leafWrapper) sdf.SDF2 {
-			knots := []v2.Vec{{X: 0, Y: 0}, {X: 3, Y: 4}, {X: 6, Y: 1}, {X: 9, Y: 5}, {X: 12, Y: 2}}
+			// 10 knots = 9 splines: CubicSplineSDF2.Evaluate has the spline count hard-coded to 9.
+			knots := []v2.Vec{{X: 0, Y: 0}, {X: 3, Y: 4}, {X: 6, Y: 1}, {X: 9, Y: 5}, {X: 12, Y: 2},
+				{X: 15, Y: 6}, {X: 18, Y: 3}, {X: 21, Y: 7}, {X: 24, Y: 4}, {X: 27, Y: 8}}
 			return must2(sdf.CubicSpline2D(knots))
 		}})
 	register(catEntry{Name: "gear-rack2d", Ctors: []string{"sdf.GearRack2D"},
@@ -199,7 +203,9 @@ func init() {
 			return sdf.RotateCopy2D(t, 9)
 		}})
 	register(catEntry{Name: "elongate2d", Ctors: []string{"sdf.Elongate2D"},
-		Build2: func(lw *leafWrapper) sdf.SDF2 { return sdf.Elongate2D(lw.w2(must2(sdf.Circle2D(2))), v2.Vec{X: 3, Y: 1}) }})
+		Build2: func(lw *leafWrapper) sdf.SDF2 {
+			return sdf.Elongate2D(lw.w2(must2(sdf.Circle2D(2))), v2.Vec{X: 3, Y: 1})
+		}})
 	register(catEntry{Name: "line-of2d", Ctors: []string{"sdf.LineOf2D"},
 		Build2: func(lw *leafWrapper) sdf.SDF2 {
 			return sdf.LineOf2D(lw.w2(must2(sdf.Circle2D(1))), v2.Vec{X: 0, Y: 0}, v2.Vec{X: 20, Y: 5}, "xx.xx")
@@ -246,7 +252,9 @@ func init() {
 			return sdf.Intersect3D(lw.w3(must3(sdf.Sphere3D(6))), g)
 		}})
 	register(catEntry{Name: "mesh3d", Ctors: []string{"sdf.Mesh3D"},
-		Build3: func(lw *leafWrapper) sdf.SDF3 { return must3(sdf.Mesh3D(catBoxMesh(v3.Vec{X: 1, Y: 2, Z: 3}, v3.Vec{X: 6, Y: 4, Z: 8}))) }})
+		Build3: func(lw *leafWrapper) sdf.SDF3 {
+			return must3(sdf.Mesh3D(catBoxMesh(v3.Vec{X: 1, Y: 2, Z: 3}, v3.Vec{X: 6, Y: 4, Z: 8})))
+		}})
 	register(catEntry{Name: "mesh3d-slow", Ctors: []string{"sdf.Mesh3DSlow"},
 		Build3: func(lw *leafWrapper) sdf.SDF3 {
 			return must3(sdf.Mesh3DSlow(catBoxMesh(v3.Vec{X: 1, Y: 2, Z: 3}, v3.Vec{X: 6, Y: 4, Z: 8})))
@@ -342,7 +350,9 @@ func init() {
 			return sdf.Transform3D(lw.w3(must3(sdf.Cone3D(10, 5, 2, 0.5))), sdf.MirrorXY())
 		}})
 	register(catEntry{Name: "scale-uniform3d", Ctors: []string{"sdf.ScaleUniform3D"},
-		Build3: func(lw *leafWrapper) sdf.SDF3 { return sdf.ScaleUniform3D(lw.w3(must3(sdf.Cylinder3D(10, 3, 0.5))), 0.5) }})
+		Build3: func(lw *leafWrapper) sdf.SDF3 {
+			return sdf.ScaleUniform3D(lw.w3(must3(sdf.Cylinder3D(10, 3, 0.5))), 0.5)
+		}})
 	register(catEntry{Name: "union3d", Ctors: []string{"sdf.Union3D"},
 		Build3: func(lw *leafWrapper) sdf.SDF3 {
 			a := lw.w3(must3(sdf.Sphere3D(5)))
@@ -399,7 +409,9 @@ func init() {
 			return sdf.RotateCopy3D(s, 7)
 		}})
 	register(catEntry{Name: "offset3d", Ctors: []string{"sdf.Offset3D"},
-		Build3: func(lw *leafWrapper) sdf.SDF3 { return sdf.Offset3D(lw.w3(must3(sdf.Box3D(v3.Vec{X: 6, Y: 4, Z: 8}, 0))), 1) }})
+		Build3: func(lw *leafWrapper) sdf.SDF3 {
+			return sdf.Offset3D(lw.w3(must3(sdf.Box3D(v3.Vec{X: 6, Y: 4, Z: 8}, 0))), 1)
+		}})
 	register(catEntry{Name: "shell3d", Ctors: []string{"sdf.Shell3D"},
 		Build3: func(lw *leafWrapper) sdf.SDF3 { return must3(sdf.Shell3D(lw.w3(must3(sdf.Sphere3D(5))), 0.5)) }})
 	register(catEntry{Name: "line-of3d", Ctors: []string{"sdf.LineOf3D"},
